@@ -122,7 +122,7 @@ def run(chk):
                 'every item handed out and the parent chain of every descendant and search result; ViewsTrace.tla (TLC) checks '
                 'the relations the property states between those recorded views. A case is a document.')
     sc = [('docs', {'Budget': 3 if quick else 4}),
-          ('blank', {'Budget': 3 if quick else 4, 'TextPool': [' ', '\n', 'a', ' \n '], 'ComPool': [], 'MathKinds': ['$'], 'MEnvNames': [],
+          ('blank', {'Budget': 3 if quick else 4, 'TextPool': [' ', '\n', 'a', ' \n ', '\r', '\r\n', '\t', '\x0c', '\u00a0'], 'ComPool': [], 'MathKinds': ['$'], 'MEnvNames': [],
                      'VerbNames': ['verbatim', 'lstlisting'], 'VerbBodies': [' ', '\n', 'x'], 'Leaves': [], 'MaxSib': 3}),
           ('deep', {'Budget': 4 if quick else 5, 'TextPool': ['t', ' '], 'ComPool': [], 'MathKinds': ['$'], 'MEnvNames': [],
                     'VerbNames': [], 'Leaves': [], 'CmdNames': ['a'], 'EnvNames': ['e'], 'Labels': [''], 'MaxSib': 2, 'MaxDepth': 4, 'MaxArgs': 1})]
